@@ -537,19 +537,58 @@ class SimNet:
         self.count("peer_rst")
 
 
+class Resolver:
+    """what hio.core.coring sees as `socket`: the real module with name resolution replaced by a fixed table (numeric
+    addresses and `localhost` resolve, every other name fails the way an unknown name does), so that no run depends on the
+    machine's resolver configuration or network"""
+    NAMES = {"localhost": "127.0.0.1"}
+
+    def __init__(self):
+        import socket as real
+        self._real = real
+
+    def __getattr__(self, name):
+        return getattr(self._real, name)
+
+    def getaddrinfo(self, host, port, family=0, type=0, proto=0, flags=0):
+        import ipaddress
+        real = self._real
+        if isinstance(host, (bytes, bytearray)):
+            host = bytes(host).decode("ascii", "strict")
+        if isinstance(host, str) and host:
+            host.encode("idna")      # the real call refuses empty / over-long labels with UnicodeError before it resolves
+        name = self.NAMES.get(host, host)
+        try:
+            ip = ipaddress.ip_address(name)
+        except ValueError:
+            raise real.gaierror(real.EAI_NONAME, "Name or service not known (%r)" % (host,))
+        if family == real.AF_INET6 and ip.version != 6:
+            raise real.gaierror(real.EAI_ADDRFAMILY, "Address family for hostname not supported")
+        if family == real.AF_INET and ip.version != 4:
+            raise real.gaierror(real.EAI_ADDRFAMILY, "Address family for hostname not supported")
+        fam = real.AF_INET if ip.version == 4 else real.AF_INET6
+        addr = (str(ip), port or 0) if ip.version == 4 else (str(ip), port or 0, 0, 0)
+        return [(fam, type or real.SOCK_STREAM, proto or 0, "", addr)]
+
+
 class net_installed:
     def __init__(self, net):
         self.net = net
 
     def __enter__(self):
         from hio.core.tcp import clienting, serving
+        from hio.core import coring
         self.mods = (clienting, serving)
         self.saved = [m.socket for m in self.mods]
         for m in self.mods:
             m.socket = self.net.module
+        self.coring = coring
+        self.saved_resolver = coring.socket
+        coring.socket = Resolver()
         return self.net
 
     def __exit__(self, *a):
         for m, s in zip(self.mods, self.saved):
             m.socket = s
+        self.coring.socket = self.saved_resolver
         return False
